@@ -18,6 +18,7 @@ type RolloutOpts struct {
 	Scale       bool // replicas may change (non-revisioned when custom field paths)
 	Small       bool // keep the configuration space tiny (exhaustive mode)
 	SingleEdit  bool // C09: only one parent change per scenario
+	TwoKinds    bool // C08: a second rolling child kind whose children share the names of the first
 }
 
 // NewRolloutScn draws a rolling-update scenario: namespaced parent, dynamic
@@ -89,6 +90,19 @@ func NewRolloutScn(c *vs.Case, o RolloutOpts) *Scn {
 			"other":    "o1",
 			"template": map[string]any{"v": "v1", "metadata": map[string]any{"labels": map[string]any{"app": "p1"}}},
 		}}
+	if o.TwoKinds && c.Prob(1, 4) {
+		// a second rolling kind; its children carry the same names as the widgets
+		ch2 := ch
+		ch2.Resource = "gadgets"
+		s.Cfg.Children = append(s.Cfg.Children, ch2)
+		tpl2 := s.Prog.Children[0]
+		tpl2.Resource = "gadgets"
+		tpl2.Labels = map[string]string{"app": "p1"}
+		tpl2.Names = append([]string(nil), s.Prog.Children[0].Names...)
+		tpl2.Fields = map[string]any{"spec": map[string]any{"v": "$p:spec.template.v", "mode": "$p:spec.other"}}
+		s.Prog.Children = append(s.Prog.Children, tpl2)
+		c.Class("two-rolling-kinds")
+	}
 	if !o.Small && c.Prob(1, 5) {
 		// a selector that mixes matchLabels with an expression on another key
 		s.SelLabels["tier"] = "a"
